@@ -5,9 +5,9 @@ emitted subset (Spec/TsNsJs.lean).
 
 Proved here
   * uninstantiated_emit_nothing (+ module-level forms): a namespace TypeScript does not instantiate produces no
-    statement and no binding — under the hypothesis, forced by the proof, that no namespace inside is written in
-    the dotted form (`namespace a.b { type T = … }` DOES produce code and a binding: a defect of the real parser,
-    shown by `dotted_counterexample`);
+    statement and no binding, however it is spelled (the hypothesis "no dotted form inside", which the first
+    version of the proof forced, exposed a defect of the real parser: `namespace a.b { type T = … }` produced code
+    and a binding; it is repaired in the parser and gone from the theorems, see `dotted_form_is_dropped`);
   * declared_once_partial: the closure generator declares the binding of a merged name iff it has not been
     declared yet, remembers it, never declares it a second time, and uses `var` at module level, `let` in a
     namespace when the target has `let`, `var` otherwise;
@@ -38,34 +38,33 @@ open EsbuildModel.TsNs EsbuildModel.TsNs.Impl EsbuildModel.TsNs.Lemmas
 /-! ### 4. namespaces without run-time content -/
 
 /-- A namespace nested in another block that TypeScript does not instantiate (only types and such namespaces
-    inside, none spelled `a.b`) yields no statement, declares no symbol (`mem` unchanged) and does not set the
+    inside, in either spelling) yields no statement, declares no symbol (`mem` unchanged) and does not set the
     "export declare" flag. -/
 theorem uninstantiated_emit_nothing (o : Opts) (π : Path) (pmap : Option MapId) (i : Nat) (mem : List SMember)
     (maps : Maps) (exported dotted : Bool) (name : String) (body : List Member)
-    (hπ : π ≠ []) (hi : Spec.instantiatedL body = false) (hd : noDottedL body = true) (hself : dotted = false) :
+    (hπ : π ≠ []) (hi : Spec.instantiatedL body = false) :
     ∃ maps', parseM o π pmap i mem maps (.ns exported dotted name body) = .ok ([], mem, maps', false) :=
   parseM_uninstantiated o π pmap i mem maps hπ (.ns exported dotted name body)
-    (by simpa [Spec.instantiatedM] using hi) (by simp [noDottedM, hself, hd])
+    (by simpa [Spec.instantiatedM] using hi)
 
 /-- the same at module level -/
 theorem uninstantiated_emit_nothing_module (o : Opts) (i : Nat) (mem : List SMember) (maps : Maps)
     (dotted : Bool) (name : String) (body : List Member)
-    (hi : Spec.instantiatedL body = false) (hd : noDottedL body = true) :
+    (hi : Spec.instantiatedL body = false) :
     ∃ maps', parseM o [] none i mem maps (.ns false dotted name body) = .ok ([], mem, maps', false) := by
   obtain ⟨maps', hp⟩ := parseL_uninstantiated o [i] (some (getOrCreate mem none maps name false [i]).1) 0 []
-    (getOrCreate mem none maps name false [i]).2 (by simp) body hi hd
+    (getOrCreate mem none maps name false [i]).2 (by simp) body hi
   refine ⟨registerExports maps' (getOrCreate mem none maps name false [i]).1 [], ?_⟩
-  have hc := dottedTail_false_of_noDotted body hd
   simp only [parseM]
   simp only [Bool.false_eq_true, false_and, if_false]
   rw [hp]
-  simp [hc]
+  simp
 
 /-- a whole file of type-only declarations and uninstantiated namespaces compiles to nothing -/
 def typeOnlyFile : List Member → Bool
   | [] => true
   | .typeOnly _ :: rest => typeOnlyFile rest
-  | .ns false _ _ body :: rest => !Spec.instantiatedL body && noDottedL body && typeOnlyFile rest
+  | .ns false _ _ body :: rest => !Spec.instantiatedL body && typeOnlyFile rest
   | _ => false
 
 theorem parseL_typeOnlyFile (o : Opts) : ∀ (P : List Member) (i : Nat) (mem : List SMember) (maps : Maps),
@@ -76,7 +75,7 @@ theorem parseL_typeOnlyFile (o : Opts) : ∀ (P : List Member) (i : Nat) (mem : 
     exact ⟨maps', by simp [parseL, parseM, h2]⟩
   | .ns false dotted name body :: rest, i, mem, maps, h => by
     simp [typeOnlyFile] at h
-    obtain ⟨maps1, h1⟩ := uninstantiated_emit_nothing_module o i mem maps dotted name body h.1.1 h.1.2
+    obtain ⟨maps1, h1⟩ := uninstantiated_emit_nothing_module o i mem maps dotted name body h.1
     obtain ⟨maps2, h2⟩ := parseL_typeOnlyFile o rest (i + 1) mem maps1 h.2
     exact ⟨maps2, by simp [parseL, h1, h2]⟩
   | .ns true _ _ _ :: _, _, _, _, h => by simp [typeOnlyFile] at h
@@ -100,19 +99,21 @@ theorem uninstantiated_file_emits_nothing (o : Opts) (P : Program) (h : typeOnly
 /-- non-vacuity: `namespace N { type T = number; namespace M { interface I {} } }` inside a block -/
 example : ∃ maps', parseM ⟨false, true, true, true⟩ [0] (some [0]) 1 [] []
     (.ns true false "N" [.typeOnly true, .ns false false "M" [.typeOnly false]]) = .ok ([], [], maps', false) :=
-  uninstantiated_emit_nothing _ _ _ _ _ _ _ _ _ _ (by simp) (by decide) (by decide) rfl
+  uninstantiated_emit_nothing _ _ _ _ _ _ _ _ _ _ (by simp) (by decide)
 
 example : typeOnlyFile [.typeOnly false, .ns false false "N" [.typeOnly true]] = true := by decide
 
-/-- the hypothesis `noDotted` is needed: `namespace A.B { export type T = number }` (TypeScript: not
-    instantiated) is compiled to a declaration of `A` and a closure call (also what the real parser does). -/
-theorem dotted_counterexample :
+/-- `namespace A.B { export type T = number }` (TypeScript: not instantiated) is dropped like the same thing
+    written with nested braces: no statement, no symbol `A`.  (Before the repair of the dotted branch of
+    parseTypeScriptNamespaceStmt this was compiled to `var A; ((A2) => {})(A || (A = {}))`.) -/
+theorem dotted_form_is_dropped (o : Opts) :
     Spec.instantiatedM (.ns false false "A" [.ns true true "B" [.typeOnly true]]) = false ∧
-    ∃ info mem maps, parseM ⟨false, true, true, true⟩ [] none 0 [] []
-        (.ns false false "A" [.ns true true "B" [.typeOnly true]]) = .ok ([.ns false "A" info []], mem, maps, false) := by
-  constructor
-  · decide
-  · simp [parseM, parseL, getOrCreate, findMember, registerExports, dottedTail, declare, mmLookup, getMap]
+    ∃ maps, parseM o [] none 0 [] [] (.ns false false "A" [.ns true true "B" [.typeOnly true]]) = .ok ([], [], maps, false) :=
+  ⟨by decide, uninstantiated_emit_nothing_module o 0 [] [] false "A" _ (by decide)⟩
+
+/-- and a file that consists of it compiles to nothing -/
+example (o : Opts) : ∃ out, compile o [.ns false false "A" [.ns true true "B" [.typeOnly true]], .typeOnly false] = .ok out ∧ out.stmts = [] ∧ out.argNames = [] :=
+  uninstantiated_file_emits_nothing o _ (by decide)
 
 /-! ### 3. the binding of a merged name is declared once -/
 
